@@ -67,9 +67,10 @@ structure InvA (v : Scal) : Prop where
   a10 : v.state = 0 ∨ v.state = 1 ∨ v.state = 2 ∨ v.state = 4
   a11 : v.td = .finished → v.writer = .exited
   a12 : v.td ≠ .off → v.state ≠ 0
+  a13 : v.td = .off → (v.close = .idle ∨ ∃ w, v.close = .entered w) → v.state = 0
 
 theorem InvA.startBg {v : Scal} (ha : InvA v) : InvA v.startBg := by
-  obtain ⟨a1, a2, a3, a4, a5, a6, a7, a8, a9, a10, a11, a12⟩ := ha
+  obtain ⟨a1, a2, a3, a4, a5, a6, a7, a8, a9, a10, a11, a12, a13⟩ := ha
   unfold Scal.startBg
   cases htd : v.td <;> constructor <;> simp_all [bgState, tdPast] <;> (try split) <;> (try omega) <;> simp_all
 
@@ -106,7 +107,7 @@ theorem A_syncOk {i : Nat} {s s' : St} (h : syncOk i s = some s') (ha : InvA (sc
   unfold syncOk at h; crunch h; exact ha
 
 theorem A_broken {v : Scal} (ha : InvA v) : InvA { v with err := latch .broken v.err, connUp := false } := by
-  obtain ⟨a1, a2, a3, a4, a5, a6, a7, a8, a9, a10, a11, a12⟩ := ha
+  obtain ⟨a1, a2, a3, a4, a5, a6, a7, a8, a9, a10, a11, a12, a13⟩ := ha
   constructor <;> simp_all
 
 theorem A_syncErr {i : Nat} {s s' : St} (h : syncErr i s = some s') (ha : InvA (scal s)) : InvA (scal s') := by
@@ -125,12 +126,12 @@ theorem A_cancel {i : Nat} {s s' : St} (h : cancel i s = some s') (ha : InvA (sc
   unfold cancel at h; crunch h; exact ha
 
 theorem A_connBreak {s s' : St} (h : connBreak s = some s') (ha : InvA (scal s)) : InvA (scal s') := by
-  obtain ⟨a1, a2, a3, a4, a5, a6, a7, a8, a9, a10, a11, a12⟩ := ha
+  obtain ⟨a1, a2, a3, a4, a5, a6, a7, a8, a9, a10, a11, a12, a13⟩ := ha
   unfold connBreak at h; crunch h; finishA
 
 theorem A_exit {v : Scal} (ha : InvA v) (w : Why) :
     InvA { v with err := latch w v.err, state := if v.state = 1 then 2 else v.state, connUp := false } := by
-  obtain ⟨a1, a2, a3, a4, a5, a6, a7, a8, a9, a10, a11, a12⟩ := ha
+  obtain ⟨a1, a2, a3, a4, a5, a6, a7, a8, a9, a10, a11, a12, a13⟩ := ha
   constructor <;> simp_all <;> (try split) <;> (try omega) <;> simp_all <;> omega
 
 theorem scal_exitConn (w : Why) (s : St) : scal (exitConn w s) =
@@ -140,15 +141,15 @@ theorem A_pingFail {s s' : St} (h : pingFail s = some s') (ha : InvA (scal s)) :
   unfold pingFail at h; crunch h; rw [scal_exitConn]; exact A_exit ha _
 
 theorem A_wTake {s s' : St} (h : wTake s = some s') (ha : InvA (scal s)) : InvA (scal s') := by
-  obtain ⟨a1, a2, a3, a4, a5, a6, a7, a8, a9, a10, a11, a12⟩ := ha
+  obtain ⟨a1, a2, a3, a4, a5, a6, a7, a8, a9, a10, a11, a12, a13⟩ := ha
   unfold wTake at h; crunch h; finishA
 
 theorem A_wFlush {s s' : St} (h : wFlush s = some s') (ha : InvA (scal s)) : InvA (scal s') := by
   unfold wFlush at h; crunch h
-  · obtain ⟨a1, a2, a3, a4, a5, a6, a7, a8, a9, a10, a11, a12⟩ := ha
+  · obtain ⟨a1, a2, a3, a4, a5, a6, a7, a8, a9, a10, a11, a12, a13⟩ := ha
     finishA
   · have hx := A_exit ha .broken
-    obtain ⟨a1, a2, a3, a4, a5, a6, a7, a8, a9, a10, a11, a12⟩ := hx
+    obtain ⟨a1, a2, a3, a4, a5, a6, a7, a8, a9, a10, a11, a12, a13⟩ := hx
     constructor <;> simp_all [scal, exitConn]
 
 theorem A_rFetch {s s' : St} (h : rFetch s = some s') (ha : InvA (scal s)) : InvA (scal s') := by
@@ -160,7 +161,7 @@ theorem A_rDeliver {s s' : St} (h : rDeliver s = some s') (ha : InvA (scal s)) :
 theorem A_exited {v : Scal} (ha : InvA v) (htd : v.td = .reading) :
     InvA { v with err := latch .broken v.err, state := if v.state = 1 then 2 else v.state, connUp := false,
                   td := .exited } := by
-  obtain ⟨a1, a2, a3, a4, a5, a6, a7, a8, a9, a10, a11, a12⟩ := ha
+  obtain ⟨a1, a2, a3, a4, a5, a6, a7, a8, a9, a10, a11, a12, a13⟩ := ha
   rcases a10 with h0 | h0 | h0 | h0 <;> constructor <;> simp_all [tdPast]
 
 theorem A_rErr {s s' : St} (h : rErr s = some s') (ha : InvA (scal s)) : InvA (scal s') := by
@@ -170,7 +171,7 @@ theorem A_rErr {s s' : St} (h : rErr s = some s') (ha : InvA (scal s)) : InvA (s
   exact A_exited hd htd
 
 theorem A_tdSpawn {s s' : St} (h : tdSpawn s = some s') (ha : InvA (scal s)) : InvA (scal s') := by
-  obtain ⟨a1, a2, a3, a4, a5, a6, a7, a8, a9, a10, a11, a12⟩ := ha
+  obtain ⟨a1, a2, a3, a4, a5, a6, a7, a8, a9, a10, a11, a12, a13⟩ := ha
   unfold tdSpawn at h; crunch h <;> finishA
 
 theorem A_bgPingPut {s s' : St} (h : bgPingPut s = some s') (ha : InvA (scal s)) : InvA (scal s') := by
@@ -178,7 +179,7 @@ theorem A_bgPingPut {s s' : St} (h : bgPingPut s = some s') (ha : InvA (scal s))
 
 theorem A_draining {v : Scal} (ha : InvA v) {c : Bool} (htd : v.td = .draining c) (x : Td)
     (hx : x = .loopDone ∨ ∃ c', x = .draining c') : InvA { v with td := x } := by
-  obtain ⟨a1, a2, a3, a4, a5, a6, a7, a8, a9, a10, a11, a12⟩ := ha
+  obtain ⟨a1, a2, a3, a4, a5, a6, a7, a8, a9, a10, a11, a12, a13⟩ := ha
   rcases hx with rfl | ⟨c', rfl⟩ <;> constructor <;> simp_all [tdPast] <;> omega
 
 theorem A_tdIter {s s' : St} (h : tdIter s = some s') (ha : InvA (scal s)) : InvA (scal s') := by
@@ -189,15 +190,15 @@ theorem A_tdIter {s s' : St} (h : tdIter s = some s') (ha : InvA (scal s)) : Inv
   · exact A_draining ha (c := ‹Bool›) (by assumption) _ (Or.inr ⟨_, rfl⟩)
 
 theorem A_tdClose {s s' : St} (h : tdClose s = some s') (ha : InvA (scal s)) : InvA (scal s') := by
-  obtain ⟨a1, a2, a3, a4, a5, a6, a7, a8, a9, a10, a11, a12⟩ := ha
+  obtain ⟨a1, a2, a3, a4, a5, a6, a7, a8, a9, a10, a11, a12, a13⟩ := ha
   unfold tdClose at h; crunch h; finishA
 
 theorem A_closeEnter {w : Why} {s s' : St} (h : closeEnter w s = some s') (ha : InvA (scal s)) : InvA (scal s') := by
-  obtain ⟨a1, a2, a3, a4, a5, a6, a7, a8, a9, a10, a11, a12⟩ := ha
+  obtain ⟨a1, a2, a3, a4, a5, a6, a7, a8, a9, a10, a11, a12, a13⟩ := ha
   unfold closeEnter at h; crunch h; finishA
 
 theorem A_casSt {s : St} {w : Nat} (hc : s.close = .entered w) (ha : InvA (scal s)) : InvA (scal (casSt s)) := by
-  obtain ⟨a1, a2, a3, a4, a5, a6, a7, a8, a9, a10, a11, a12⟩ := ha
+  obtain ⟨a1, a2, a3, a4, a5, a6, a7, a8, a9, a10, a11, a12, a13⟩ := ha
   rcases a10 with h0 | h0 | h0 | h0 <;> constructor <;> simp_all [scal, casSt, isStopping, tdPast]
 
 theorem A_closeCas {s s' : St} (h : closeCas s = some s') (ha : InvA (scal s)) : InvA (scal s') := by
@@ -206,19 +207,19 @@ theorem A_closeCas {s s' : St} (h : closeCas s = some s') (ha : InvA (scal s)) :
   · exact A_casSt (by assumption) ha
 
 theorem A_closePing {s s' : St} (h : closePing s = some s') (ha : InvA (scal s)) : InvA (scal s') := by
-  obtain ⟨a1, a2, a3, a4, a5, a6, a7, a8, a9, a10, a11, a12⟩ := ha
+  obtain ⟨a1, a2, a3, a4, a5, a6, a7, a8, a9, a10, a11, a12, a13⟩ := ha
   unfold closePing at h; crunch h <;> finishA
 
 theorem A_closeGot {s s' : St} (h : closeGot s = some s') (ha : InvA (scal s)) : InvA (scal s') := by
-  obtain ⟨a1, a2, a3, a4, a5, a6, a7, a8, a9, a10, a11, a12⟩ := ha
+  obtain ⟨a1, a2, a3, a4, a5, a6, a7, a8, a9, a10, a11, a12, a13⟩ := ha
   unfold closeGot at h; crunch h; finishA
 
 theorem A_closeGrace {s s' : St} (h : closeGrace s = some s') (ha : InvA (scal s)) : InvA (scal s') := by
-  obtain ⟨a1, a2, a3, a4, a5, a6, a7, a8, a9, a10, a11, a12⟩ := ha
+  obtain ⟨a1, a2, a3, a4, a5, a6, a7, a8, a9, a10, a11, a12, a13⟩ := ha
   unfold closeGrace at h; crunch h; finishA
 
 theorem A_closeTail {s s' : St} (h : closeTail s = some s') (ha : InvA (scal s)) : InvA (scal s') := by
-  obtain ⟨a1, a2, a3, a4, a5, a6, a7, a8, a9, a10, a11, a12⟩ := ha
+  obtain ⟨a1, a2, a3, a4, a5, a6, a7, a8, a9, a10, a11, a12, a13⟩ := ha
   unfold closeTail at h; crunch h; finishA
 
 theorem invA_step {fix : Bool} {s s' : St} {l : Label} (h : step fix s l = some s') (ha : InvA (scal s)) :
